@@ -73,7 +73,7 @@ fn from_n<const N: usize>() {
     vcover!("from.sorted_input_with_duplicate", N < 3 || (input[0] == input[1] && input[1] < input[2]));
 }
 
-//@H props=C20,C04 tier=quick kind=bounded cap=600 bound="vector length 0" domain="all u8 values"
+//@H props=C20,C17,C04 tier=quick kind=bounded cap=600 bound="vector length 0" domain="all u8 values"
 #[cfg_attr(kani, kani::proof)]
 #[cfg_attr(kani, kani::unwind(8))]
 #[cfg_attr(verif_replay, test)]
@@ -81,7 +81,7 @@ fn usv_from_0() {
     from_n::<0>()
 }
 
-//@H props=C20,C04 tier=quick kind=bounded cap=600 bound="vector length 1" domain="all u8 values"
+//@H props=C20,C17,C04 tier=quick kind=bounded cap=600 bound="vector length 1" domain="all u8 values"
 #[cfg_attr(kani, kani::proof)]
 #[cfg_attr(kani, kani::unwind(8))]
 #[cfg_attr(verif_replay, test)]
@@ -89,7 +89,7 @@ fn usv_from_1() {
     from_n::<1>()
 }
 
-//@H props=C20,C04 tier=quick kind=bounded cap=600 bound="vector length 2" domain="all u8 values"
+//@H props=C20,C17,C04 tier=quick kind=bounded cap=600 bound="vector length 2" domain="all u8 values"
 #[cfg_attr(kani, kani::proof)]
 #[cfg_attr(kani, kani::unwind(8))]
 #[cfg_attr(verif_replay, test)]
@@ -97,7 +97,7 @@ fn usv_from_2() {
     from_n::<2>()
 }
 
-//@H props=C20,C04 tier=quick kind=bounded cap=900 bound="vector length 3" domain="all u8 values"
+//@H props=C20,C17,C04 tier=quick kind=bounded cap=900 bound="vector length 3" domain="all u8 values"
 #[cfg_attr(kani, kani::proof)]
 #[cfg_attr(kani, kani::unwind(8))]
 #[cfg_attr(verif_replay, test)]
@@ -105,7 +105,7 @@ fn usv_from_3() {
     from_n::<3>()
 }
 
-//@H props=C20,C04 tier=thorough kind=bounded cap=2400 bound="vector length 4" domain="all u8 values"
+//@H props=C20,C17,C04 tier=thorough kind=bounded cap=2400 bound="vector length 4" domain="all u8 values"
 #[cfg_attr(kani, kani::proof)]
 #[cfg_attr(kani, kani::unwind(8))]
 #[cfg_attr(verif_replay, test)]
@@ -136,7 +136,7 @@ fn union_nm<const N: usize, const M: usize>() {
     vcover!("union.reachable", true);
 }
 
-//@H props=C20,C04 tier=quick kind=bounded cap=600 bound="operand lengths (0,2)" domain="all u8 values"
+//@H props=C20,C17,C04 tier=quick kind=bounded cap=600 bound="operand lengths (0,2)" domain="all u8 values"
 #[cfg_attr(kani, kani::proof)]
 #[cfg_attr(kani, kani::unwind(9))]
 #[cfg_attr(verif_replay, test)]
@@ -144,7 +144,7 @@ fn usv_union_0_2() {
     union_nm::<0, 2>()
 }
 
-//@H props=C20,C04 tier=quick kind=bounded cap=600 bound="operand lengths (2,0)" domain="all u8 values"
+//@H props=C20,C17,C04 tier=quick kind=bounded cap=600 bound="operand lengths (2,0)" domain="all u8 values"
 #[cfg_attr(kani, kani::proof)]
 #[cfg_attr(kani, kani::unwind(9))]
 #[cfg_attr(verif_replay, test)]
@@ -152,7 +152,7 @@ fn usv_union_2_0() {
     union_nm::<2, 0>()
 }
 
-//@H props=C20,C04 tier=quick kind=bounded cap=900 bound="operand lengths (1,1)" domain="all u8 values"
+//@H props=C20,C17,C04 tier=quick kind=bounded cap=900 bound="operand lengths (1,1)" domain="all u8 values"
 #[cfg_attr(kani, kani::proof)]
 #[cfg_attr(kani, kani::unwind(9))]
 #[cfg_attr(verif_replay, test)]
@@ -160,7 +160,7 @@ fn usv_union_1_1() {
     union_nm::<1, 1>()
 }
 
-//@H props=C20,C04 tier=quick kind=bounded cap=1200 bound="operand lengths (1,2)" domain="all u8 values"
+//@H props=C20,C17,C04 tier=quick kind=bounded cap=1200 bound="operand lengths (1,2)" domain="all u8 values"
 #[cfg_attr(kani, kani::proof)]
 #[cfg_attr(kani, kani::unwind(9))]
 #[cfg_attr(verif_replay, test)]
@@ -168,7 +168,7 @@ fn usv_union_1_2() {
     union_nm::<1, 2>()
 }
 
-//@H props=C20,C04 tier=quick kind=bounded cap=1200 bound="operand lengths (2,1)" domain="all u8 values"
+//@H props=C20,C17,C04 tier=quick kind=bounded cap=1200 bound="operand lengths (2,1)" domain="all u8 values"
 #[cfg_attr(kani, kani::proof)]
 #[cfg_attr(kani, kani::unwind(9))]
 #[cfg_attr(verif_replay, test)]
@@ -176,7 +176,7 @@ fn usv_union_2_1() {
     union_nm::<2, 1>()
 }
 
-//@H props=C20,C04 tier=quick kind=bounded cap=1500 bound="operand lengths (2,2)" domain="all u8 values"
+//@H props=C20,C17,C04 tier=quick kind=bounded cap=1500 bound="operand lengths (2,2)" domain="all u8 values"
 #[cfg_attr(kani, kani::proof)]
 #[cfg_attr(kani, kani::unwind(9))]
 #[cfg_attr(verif_replay, test)]
@@ -184,7 +184,7 @@ fn usv_union_2_2() {
     union_nm::<2, 2>()
 }
 
-//@H props=C20,C04 tier=thorough kind=bounded cap=3000 bound="operand lengths (3,2)" domain="all u8 values"
+//@H props=C20,C17,C04 tier=thorough kind=bounded cap=3000 bound="operand lengths (3,2)" domain="all u8 values"
 #[cfg_attr(kani, kani::proof)]
 #[cfg_attr(kani, kani::unwind(9))]
 #[cfg_attr(verif_replay, test)]
@@ -192,7 +192,7 @@ fn usv_union_3_2() {
     union_nm::<3, 2>()
 }
 
-//@H props=C20,C04 tier=thorough kind=bounded cap=3000 bound="operand lengths (2,3)" domain="all u8 values"
+//@H props=C20,C17,C04 tier=thorough kind=bounded cap=3000 bound="operand lengths (2,3)" domain="all u8 values"
 #[cfg_attr(kani, kani::proof)]
 #[cfg_attr(kani, kani::unwind(9))]
 #[cfg_attr(verif_replay, test)]
@@ -200,7 +200,7 @@ fn usv_union_2_3() {
     union_nm::<2, 3>()
 }
 
-//@H props=C20,C04 tier=thorough kind=bounded cap=3600 mem=medium bound="operand lengths (3,3)" domain="all u8 values"
+//@H props=C20,C17,C04 tier=thorough kind=bounded cap=3600 mem=medium bound="operand lengths (3,3)" domain="all u8 values"
 #[cfg_attr(kani, kani::proof)]
 #[cfg_attr(kani, kani::unwind(9))]
 #[cfg_attr(verif_replay, test)]
